@@ -26,6 +26,7 @@ UNITS = {
     "trusted_additions": {"template": "contracts/trusted_additions.vrs", "rlimit": 60},
     "tree_hash_bytes": {"template": "contracts/tree_hash_bytes.vrs", "rlimit": 30},
     "bundle_additions": {"template": "contracts/bundle_additions.vrs", "rlimit": 60},
+    "builders_interned": {"template": "contracts/builders_interned.vrs", "rlimit": 60},
     "mempool_visitor": {"template": "contracts/mempool_visitor.vrs", "rlimit": 60},
     "generator_len": {"template": "contracts/generator_len.vrs", "rlimit": 30},
     "aggsig": {"template": "contracts/aggsig.vrs", "rlimit": 60},
@@ -291,7 +292,7 @@ PROPS["C08"] = {
     "components": [V("generator_len"), V("int_encoders"), V("drivers"), N("native_paths_ground", "paths_ground"),
                    # the builders produce generators too: what they emit must validate like the bundles they were given (the
                    # running-estimate clause of a fresh builder is C10's statement and is reported there)
-                   V("builders"), N("native_builders_ground", "builders_ground", thorough_task="builders_ground:thorough", exclude_id=r"/fresh-estimate$")],
+                   V("builders"), V("builders_interned"), N("native_builders_ground", "builders_ground", thorough_task="builders_ground:thorough", exclude_id=r"/fresh-estimate$")],
     "assumptions": ["reveals are serialized CLVM (their byte length is their serialized length)", "Program::as_ref returns the wrapped bytes"],
     "not_covered": [
         "run_spendbundle vs run_block_generator2 equivalence for all bundles (CLVM execution): ground comparisons only",
@@ -330,10 +331,10 @@ PROPS["C10"] = {
     "technique": "Verus contracts on the real BlockBuilder::{add_spend_bundles, cost, finalize} (compressed builder, extracted; generic iterator parameter monomorphised at &[SpendBundle]) with a representation invariant over any call history, under assumed contracts on clvmr's incremental Serializer; native evaluation of ground builder histories of both builders (offers landing on the limit, late rejects with signed bundles) through full validation of the finalized generator",
     "level_text": "Deductive proof (compressed builder), inductive over every sequence of add attempts: each attempt is all-or-nothing (a rejected attempt leaves declared cost, signature and serializer state exactly unchanged, an accepted one adds exactly the declared cost and the aggregate of exactly the batch's signatures), block cost plus closing bytes never exceeds the block limit, finalize's two assert!s are unreachable and the returned cost is <= the limit and <= the running estimate; no arithmetic overflow for declared costs <= the limit.",
     "level_note": "ASSUMED: Serializer::add/restore/size contracts (restore returns to the exact pre-add state; closing nil costs <= 2 bytes), tree construction calls, Signature::aggregate as uninterpreted group addition. That the finalized generator decodes to exactly the accepted spends and costs what consensus charges depends on serializer correctness and CLVM (not covered). The interned builder is decided on ground histories only: 116 fixed histories of both builders (declared costs landing on the limit in half-byte steps -6..+40, accept / late-reject / accept with signed bundles, batches with truthful costs) are run on the real code: running estimate within the limit after every step, finalize total, the generator passes run_block_generator2 under the returned signature, spends exactly the accepted coins, costs exactly the returned cost, and the same history without the refused offers gives the same output. One known finding: a fresh compressed builder's cost() underestimates (known-findings.txt).",
-    "components": [V("builders"), N("native_builders_ground", "builders_ground", thorough_task="builders_ground:thorough")],
+    "components": [V("builders"), V("builders_interned"), N("native_builders_ground", "builders_ground", thorough_task="builders_ground:thorough")],
     "assumptions": ["clvmr incremental Serializer contracts", "declared cost <= max block cost, sane constants, < 2^32 rejected attempts"],
     "not_covered": [
-        "InternedBlockBuilder (build_interned_block.rs) as a contract for all histories: ground histories only",
+        "InternedBlockBuilder: its cost / undo arithmetic is under contract for every history (unit builders_interned: all-or-nothing, exact per-spend estimate = isolated interned size + one cons cell, estimate within the limit, finalize within limit and estimate); that the estimate really bounds the interned size of the finished generator is the interner's triangle inequality, a precondition of finalize there (ASSUMED) and decided on ground histories",
         "finalized generator decodes to exactly the accepted spends; returned cost equals the consensus cost of that generator: ground histories only",
     ],
 }
